@@ -338,6 +338,7 @@ func checkC20(c *core.Ctx) error {
 	checkRequestedResults(c)
 	checkErrorBranches(c)
 	checkInterfaceComparisons(c)
+	checkOptionalScratch(c)
 	checkOptionSwitches(c)
 	checkOptionSpreading(c)
 	checkADGuards(c)
